@@ -26,7 +26,7 @@ contract(SM + '.process_input', props=['C06'],
          'k': _K},
     ensures=[('accepted', 'k == K_OK', ['C06', 'C08']),
              ('next-state', 'self.state.value == rfc_next(st, inp, k)', ['C06', 'C08', 'C22']),
-             ('closed-by', '(-1 if self.stream_closed_by is None else self.stream_closed_by.value) == rfc_closed_by(st, inp, k, cb)', ['C06', 'C20']),
+             ('closed-by', '(-1 if self.stream_closed_by is None else self.stream_closed_by.value) == rfc_closed_by(st, inp, k, cb)', ['C06']),
              ('event-count', '(0 if result is None else len(result)) == (0 if rfc_event(st, inp, k, cl, hs, ts, hr, tr) == "" else 1)', ['C06', 'C07']),
              ('event-kind', 'implies(rfc_event(st, inp, k, cl, hs, ts, hr, tr) != "", class_name(result[0]) == rfc_event(st, inp, k, cl, hs, ts, hr, tr))', ['C06', 'C07', 'C24']),
              ('client', 'self.client == rfc_client_after(st, inp, k, cl)', ['C06', 'C07', 'C08']),
@@ -44,7 +44,7 @@ contract(SM + '.process_input', props=['C06'],
             dict(exc='ProtocolError', when='k == K_PROTO', props=['C06', 'C08'],
                  ensures=[('code', 'exc.error_code == PROTOCOL_ERROR', ['C06', 'C18'])])],
     on_raise=[('closed', 'self.state == StreamState.CLOSED', ['C06']),
-              ('closed-by', '(-1 if self.stream_closed_by is None else self.stream_closed_by.value) == rfc_closed_by(st, inp, k, cb)', ['C06', 'C20']),
+              ('closed-by', '(-1 if self.stream_closed_by is None else self.stream_closed_by.value) == rfc_closed_by(st, inp, k, cb)', ['C06']),
               ('flags-kept', 'self.client == cl and bool(self.headers_sent) == bool(hs) and bool(self.headers_received) == bool(hr)'),
               ('inv', 'SM_INV(self)', ['C06', 'C07', 'C08'])],
     unchanged=['self.stream_id'],
